@@ -277,7 +277,10 @@ def units_text(units):
 
 def rand_units(rng, maxlen=12, allow_wide=True):
     n = rng.choice([0, 1, 1, 2, 3, 5, maxlen])
-    alpha = [0x41, 0x62, 0x7A, 0x20, 0xE9, 0xFF] + ([0x100, 0x4E2D, 0x20AC, 0xFEFF, 0xFFFE] if allow_wide else [])
+    # 0x80 / 0x85 / 0x99 / 0x9F: C1 controls (a compressed string is Latin-1, not windows-1252);
+    # 0xC3 0xA9, 0xC2 0xA3: Latin-1 text whose bytes spell well-formed UTF-8
+    alpha = [0x41, 0x62, 0x7A, 0x20, 0xE9, 0xFF, 0x80, 0x85, 0x99, 0x9F, 0xC3, 0xA9, 0xC2, 0xA3] + \
+            ([0x100, 0x4E2D, 0x20AC, 0xFEFF, 0xFFFE] if allow_wide else [])
     u = [rng.choice(alpha) for _ in range(n)]
     if allow_wide and rng.random() < 0.2 and n + 2 <= maxlen:
         u += [0xD83D, 0xDE00]                     # a surrogate pair
